@@ -883,8 +883,6 @@ def main():
     # Budgets (quick tier only) keep the run short on a tree that has a crash class: each request that does not come back costs a
     # process restart, a hang a whole watchdog period; what a spent budget leaves out is counted as skipped.
     passes = [("main", "prog", groups, prog_req, 8000000, WATCHDOG_MS, 12 if quick else 14, 64, (lambda: Budget(max_bad=16)) if quick else (lambda: None)),
-              ("strict", "prog", lowmem_groups, prog_req, 2000000, 2000 if quick else 5000, 4 if quick else 14, 8 if quick else 64,
-               (lambda: Budget(seconds=20, max_bad=40)) if quick else (lambda: None)),
               ("line", "c01", line_groups, c01_req, 8000000, WATCHDOG_MS, 12 if quick else 14, 64, (lambda: Budget(max_bad=16)) if quick else (lambda: None))]
     done = []  # (binname, flat, order, reqs, rel, res, watchdog)
 
@@ -899,10 +897,14 @@ def main():
                 res = run_parallel(binname, reqs, rel, workers=workers, chunk=chunk, vlimit_kb=vlimit, watchdog_ms=wd, budget=mkbudget())
                 done.append((binname, flat, order, reqs, rel, res, wd))
 
-    th = threading.Thread(target=run_pass, args=(passes[1],))  # the strict pass runs beside the others
+    # the strict families run beside the others, one pass and one budget per family (a crash class in one of them must not
+    # use up the budget of the other)
+    strict = [("strict:" + g, "prog", [(g, es)], prog_req, 2000000, 2000 if quick else 5000, 4 if quick else 14, 4 if quick else 64,
+               (lambda: Budget(seconds=10, max_bad=25)) if quick else (lambda: None)) for g, es in lowmem_groups]
+    th = threading.Thread(target=lambda: [run_pass(ps) for ps in strict])
     th.start()
     run_pass(passes[0])
-    run_pass(passes[2])
+    run_pass(passes[1])
     th.join()
     # a request that did not answer within the watchdog while the shards (and whatever else) load the machine gets a second
     # chance with twice the watchdog before it counts as a hang: at most 2 per pass and profile, all of them at once, now that
